@@ -123,7 +123,12 @@ func init() {
 	})
 
 	// ---- fmt
-	reg("fmt.Sprintf", func(p *preCall) Val { return p.fr.sprintf(p) })
+	reg("fmt.Sprintf", func(p *preCall) Val { return p.fr.sprintf(p, 0) })
+	reg("fmt.Appendf", func(p *preCall) Val {
+		v := p.fr.sprintf(p, 1)
+		pre := p.str(0)
+		return bytesVal(p.fc().def("appf", "Bytes", "(mkB false (str.++ "+pre+" "+v.T+"))"))
+	})
 	reg("fmt.Sprint", func(p *preCall) Val { return p.fc().freshVal(types.Typ[types.String], "sprint") })
 
 	// ---- strings / bytes
@@ -345,7 +350,7 @@ func init() {
 	reg("(time.Time).UTC", ident)
 
 	// ---- stores
-	regInv("cosmossdk.io/core/store.KVStoreService.OpenKVStore", func(p *preCall) Val {
+	regInv("*.OpenKVStore", func(p *preCall) Val {
 		svc, ctx := p.args[0], p.args[1]
 		return Val{S: "View", T: "(mkV (c_br " + ctx.T + ") " + svcID(svc) + " \"\")", Typ: p.typ(0)}
 	})
@@ -454,12 +459,12 @@ func (fr *Frame) unmarshal(p *preCall, withErr bool) Val {
 
 // ---- fmt.Sprintf with a constant format
 
-func (fr *Frame) sprintf(p *preCall) Val {
+func (fr *Frame) sprintf(p *preCall, fi int) Val {
 	fc := fr.fc
 	var format string
 	okFmt := false
 	if p.cc != nil {
-		if c, ok := p.cc.Args[0].(*ssa.Const); ok && c.Value != nil {
+		if c, ok := p.cc.Args[fi].(*ssa.Const); ok && c.Value != nil {
 			format = constant.StringVal(c.Value)
 			okFmt = true
 		}
@@ -468,7 +473,7 @@ func (fr *Frame) sprintf(p *preCall) Val {
 		fc.B.Note("Sprintf with non-constant format: uninterpreted")
 		return fc.freshVal(types.Typ[types.String], "sprintf")
 	}
-	va := p.args[1] // []any
+	va := p.args[fi+1] // []any
 	var parts []string
 	argi := 0
 	i := 0
@@ -499,7 +504,7 @@ func (fr *Frame) sprintf(p *preCall) Val {
 		}
 		flags := format[i+1 : j]
 		elem := "(select (s_arr " + va.T + ") " + strconv.Itoa(argi) + ")"
-		dv, known := fr.varargElem(p, argi)
+		dv, known := fr.varargElem(p, va, argi)
 		argi++
 		i = j + 1
 		switch {
@@ -565,43 +570,17 @@ func hasStringMethod(fc *FnCtx, t types.Type) *ssa.Function {
 	return nil
 }
 
-// varargElem finds the concrete value stored into element i of the varargs array, if the call site
-// built it with the usual `new [n]any; store; slice` pattern.
-func (fr *Frame) varargElem(p *preCall, i int) (Val, bool) {
-	if p.cc == nil || len(p.cc.Args) < 2 {
+// varargElem returns the concrete value boxed into element i of the call-site argument array.
+func (fr *Frame) varargElem(p *preCall, va Val, i int) (Val, bool) {
+	if va.VA == nil || i >= len(va.VA.vals) {
 		return Val{}, false
 	}
-	sl, ok := p.cc.Args[len(p.cc.Args)-1].(*ssa.Slice)
-	if !ok {
-		return Val{}, false
+	ev := va.VA.vals[i]
+	if ev.Fn != nil && ev.Fn.Special == "dyn" && len(ev.Fn.Data) == 1 {
+		return ev.Fn.Data[0], true
 	}
-	al, ok := sl.X.(*ssa.Alloc)
-	if !ok {
-		return Val{}, false
-	}
-	for _, ref := range *al.Referrers() {
-		ia, ok := ref.(*ssa.IndexAddr)
-		if !ok {
-			continue
-		}
-		k, ok := constInt(ia.Index)
-		if !ok || int(k) != i {
-			continue
-		}
-		for _, r2 := range *ia.Referrers() {
-			if stor, ok := r2.(*ssa.Store); ok && stor.Addr == ia {
-				if mi, ok := stor.Val.(*ssa.MakeInterface); ok {
-					owner := p.fr
-					if v, ok := owner.vals[mi.X]; ok {
-						return v, true
-					}
-					if c, ok := mi.X.(*ssa.Const); ok {
-						return fr.fc.constVal(c), true
-					}
-					return owner.get(mi.X), true
-				}
-			}
-		}
+	if ev.S == "Int" && isErrorType(ev.Typ) {
+		return ev, true
 	}
 	return Val{}, false
 }
@@ -700,7 +679,7 @@ func (fr *Frame) viewOp(m string, recv Val, args []Val, cc *ssa.CallCommon, resT
 
 func (fc *FnCtx) loadGlobal(g *ssa.Global, t types.Type) Val {
 	pk := g.Pkg.Pkg.Path()
-	if isErrorType(t) {
+	if isErrorType(t) || isSentinelErrType(t) {
 		return Val{S: "Int", T: fc.B.Sentinel(pk, g.Name()), Typ: t}
 	}
 	if v, ok := fc.globalConst(pk, g.Name(), t); ok {
